@@ -502,6 +502,13 @@ def generate(template_path: str) -> Tuple[str, List[dict]]:
                 out.append(f"{indent};")
                 rec["body_tokens"] = None
                 j += 1
+            elif term == "stub":
+                # callee contract: real signature + spec lines, body NOT taken (the function is `external_body` in the template:
+                # its contract is assumed here and checked elsewhere); recorded so evidence can list it as assumed
+                out.append(f"{indent}{{ unimplemented!() }}")
+                rec["body_tokens"] = None
+                rec["stub"] = True
+                j += 1
             elif term in ("body", "body+"):
                 if fn.body_open is None:
                     raise Lost(f"{src.spec}: fn {fname} has no body")
